@@ -18,7 +18,7 @@ import (
 )
 
 // nodeKinds of the C03 layout generator (the assignment the property quantifies over).
-var c03Kinds = []string{"none", "new-available", "new-unavailable", "old-available", "old-available", "old-unavailable", "old-unavailable", "old-terminating", "old-stuck-unscheduled", "old-terminating-past-grace", "adopted-available", "adopted-unavailable"}
+var c03Kinds = []string{"none", "new-available", "new-unavailable", "old-available", "old-available", "old-unavailable", "old-unavailable", "old-terminating", "old-terminating-unready", "new-terminating-unready", "old-stuck-unscheduled", "old-terminating-past-grace", "adopted-available", "adopted-unavailable"}
 
 func forksN() int {
 	if thorough() {
@@ -30,7 +30,7 @@ func forksN() int {
 // TestC03Budget: one sync of the active replica set over a generated layout,
 // executed on several forks of the store (Go map order), judged by the budget monitor.
 func TestC03Budget(t *testing.T) {
-	rec := evid.New("TestC03Budget", "C03", "layout = 1-12 targeted nodes each in {no pod, up-to-date available/unavailable, outdated available/unavailable/terminating, stuck unscheduled >10min, terminating past grace, adopted old-DaemonSet pod available/unavailable} x maxUnavailable x maxPodSchedulerFailure (int or percent), one active sync on several store forks; non-trivial = at least one outdated-available and one outdated-unavailable pod and fewer deletions allowed than candidates; distinct by layout+strategy rendering")
+	rec := evid.New("TestC03Budget", "C03", "layout = 1-12 targeted nodes each in {no pod, up-to-date available/unavailable, outdated available/unavailable/terminating (Ready or not, inside the grace period), up-to-date terminating, stuck unscheduled >10min, terminating past grace, adopted old-DaemonSet pod available/unavailable} x maxUnavailable x maxPodSchedulerFailure (int or percent), one active sync on several store forks; non-trivial = at least one outdated-available and one outdated-unavailable pod and fewer deletions allowed than candidates; distinct by layout+strategy rendering")
 	t.Cleanup(func() {
 		if !t.Failed() {
 			rec.Done()
@@ -77,6 +77,11 @@ func TestC03Budget(t *testing.T) {
 				oldUnavail++
 			case "old-terminating":
 				p.addPod(node, 'A', PSTerminating, 15*time.Minute)
+			case "old-terminating-unready":
+				// deleted a few seconds ago, containers already stopped, still inside its grace period
+				p.addPod(node, 'A', PSTerminatingUnready, 15*time.Minute)
+			case "new-terminating-unready":
+				p.addPod(node, 'B', PSTerminatingUnready, time.Minute)
 			case "old-stuck-unscheduled":
 				p.addPod(node, 'A', PSStuckUnscheduled, 15*time.Minute)
 			case "old-terminating-past-grace":
